@@ -223,7 +223,7 @@ def _handler_histories(ctx, res):
                 '<i tal:replace="structure rdir/shared">s</i></body></html>\n')
         footer = '<address>footer version %d</address>\n'
         macros = '<div metal:define-macro="box" class="box%d"><span metal:define-slot="body">empty</span></div>\n'
-        shared = '<em>shared %d</em>\n'
+        shared = '<em>shared %d <span metal:define-slot="body">slot default of the shared part</span></em>\n'
         files = {"site/sub/page.html.tal": page, "site/sub/footer.html.tal": footer, "site/sub/lib.html.tal": macros, "site/shared.html.tal": shared}
         steps = [(None, 1_700_000_000)] + [(f, t) for f in files for t in (1_700_000_500, 1_700_000_500, 1_600_000_000)]
         version = {f: 0 for f in files}
@@ -251,7 +251,8 @@ def _handler_histories(ctx, res):
             fresh = ask()
             res.evaluations += 1
             res.nontrivial.add(("tal-handler-history", i))
-            if history[i] != fresh or (b"version" not in (fresh or b"") and i == 0):
+            # (a slot filler belongs to its own use-macro: the template included afterwards shows its slot's default)
+            if history[i] != fresh or b"version" not in (fresh or b"") or b"slot default of the shared part" not in (fresh or b"") or (fresh or b"").count(b"filled") != 1:
                 res.violation("C17:handler-history", "the TAL handler's answer is not the expansion of the templates as they are now (one server process)",
                               {"step": i, "replaced": steps[i][0], "mtime": steps[i][1]}, observed=(history[i] or b"")[:400], required=(fresh or b"")[:400],
                               replay={"handler_history": True, "step": i})
